@@ -166,7 +166,7 @@ func certchainCase(run *vkit.Run, caseIx, j int) {
 		panic("certchain returned a different number of certificates")
 	}
 
-	verify := func(crts []*certs.FinalityCertificate, gen string) {
+	verify := func(obj *certchain.CertChain, crts []*certs.FinalityCertificate, gen string) {
 		// ---- the spec, from the property text
 		headOf := func(ix int64) (committee, bool) { // committee at the head finalized by certificate index ix
 			if ix < 0 || ix >= int64(len(crts)) {
@@ -224,7 +224,7 @@ func certchainCase(run *vkit.Run, caseIx, j int) {
 		node := f3.VerifNewInputs(m, cs, fec, sv, clk)
 
 		certchainSide := func(i uint64) (committee, error) {
-			cm, err := cc.GetCommittee(ctx, i)
+			cm, err := obj.GetCommittee(ctx, i)
 			if err != nil {
 				return committee{}, err
 			}
@@ -313,7 +313,7 @@ func certchainCase(run *vkit.Run, caseIx, j int) {
 			run.Count("certchain_chain_validation_failed", 1)
 		}
 	}
-	verify(crts, "")
+	verify(cc, crts, "")
 	if j%2 == 0 {
 		// the same generator object produces a second, different chain: its committees must follow the
 		// look-back rule over the NEW chain (nothing of the first one may be remembered)
@@ -331,7 +331,36 @@ func certchainCase(run *vkit.Run, caseIx, j int) {
 		} else {
 			run.Count("certchain_regenerated_chains", 1)
 		}
-		verify(crts2, "+regenerated")
+		verify(cc, crts2, "+regenerated")
+	}
+	if j%2 == 1 && len(crts) >= 4 {
+		// a second object VALIDATES the generated chain: a prefix, then a forged certificate that must be
+		// turned down, then the genuine continuation; afterwards its committees must still follow the
+		// node rule over the accepted certificates only
+		vc, err := certchain.New(certchain.WithSeed(c.Seed+1), certchain.WithSignVerifier(sv), certchain.WithManifest(m), certchain.WithEC(fec))
+		if err != nil {
+			panic(err)
+		}
+		k := 1 + int(uint64(c.Seed)%uint64(len(crts)-2))
+		run.Count("certchain_validate_flows", 1)
+		if err := vc.Validate(ctx, crts[:k]); err != nil {
+			run.Violation("C19 certchain validate: Validate rejects a prefix of a chain Generate produced: "+stripNumbers(err.Error()), wit(map[string]any{"k": k, "error": err.Error()}))
+			return
+		}
+		bad := *crts[k]
+		bad.Signature = append([]byte(nil), bad.Signature...)
+		if len(bad.Signature) > 0 {
+			bad.Signature[len(bad.Signature)/2] ^= 0x5a
+		}
+		if err := vc.Validate(ctx, []*certs.FinalityCertificate{&bad}); err == nil {
+			run.Violation("C19 certchain validate: Validate accepts a certificate with a tampered signature", wit(map[string]any{"k": k}))
+			return
+		}
+		if err := vc.Validate(ctx, crts[k:]); err != nil {
+			run.Violation("C19 certchain validate: Validate rejects the genuine continuation after having turned down a forged certificate: "+stripNumbers(err.Error()), wit(map[string]any{"k": k, "error": err.Error()}))
+			return
+		}
+		verify(vc, crts, "+validated-after-rejection")
 	}
 }
 
